@@ -34,6 +34,8 @@ impl FqVarExtension for FqVar {
         // Note: `num = 1`
         // `y = sqrt(num/den)`
         let (was_square, y) = Fq::sqrt_ratio_zeta(&Fq::ONE, &den);
+        #[cfg(decaf377_verif)]
+        let (was_square, y) = verif_hint::apply(&den, was_square, y);
 
         let cs = self.cs();
         let was_square_var = Boolean::new_witness(cs.clone(), || Ok(was_square))?;
@@ -96,5 +98,47 @@ impl FqVarExtension for FqVar {
         let absolute_value =
             FqVar::conditionally_select(&self.is_nonnegative()?, &self, &self.negate()?)?;
         Ok(absolute_value)
+    }
+}
+
+/// Verification hook (guard: --cfg decaf377_verif). Additive only: lets a harness play the
+/// adversarial prover by substituting the out-of-circuit hint `(was_square, y)` that `isqrt`
+/// witnesses. With no override installed the honest hint is used unchanged.
+#[cfg(decaf377_verif)]
+pub mod verif_hint {
+    extern crate std;
+    use crate::Fq;
+    use std::boxed::Box;
+    use std::cell::{Cell, RefCell};
+
+    /// (call index within this thread since `set`, den, honest flag, honest y) -> substituted hint
+    pub type Override = Box<dyn FnMut(usize, &Fq, bool, &Fq) -> (bool, Fq)>;
+
+    std::thread_local! {
+        static OVERRIDE: RefCell<Option<Override>> = RefCell::new(None);
+        static CALLS: Cell<usize> = Cell::new(0);
+    }
+
+    /// Install (or clear) the override for the current thread and reset the call counter.
+    pub fn set(f: Option<Override>) {
+        OVERRIDE.with(|o| *o.borrow_mut() = f);
+        CALLS.with(|c| c.set(0));
+    }
+
+    /// Number of `isqrt` calls seen on this thread since the last `set`.
+    pub fn calls() -> usize {
+        CALLS.with(|c| c.get())
+    }
+
+    pub(super) fn apply(den: &Fq, was_square: bool, y: Fq) -> (bool, Fq) {
+        let idx = CALLS.with(|c| {
+            let i = c.get();
+            c.set(i + 1);
+            i
+        });
+        OVERRIDE.with(|o| match o.borrow_mut().as_mut() {
+            Some(f) => f(idx, den, was_square, &y),
+            None => (was_square, y),
+        })
     }
 }
